@@ -16,6 +16,14 @@ def templates():
                 [("qubit q", "?")], 0))
     out.append(("re-measured after reset", "function main() -> void {\n  @tracked qubit q;\n  x(q);\n  measure q;\n  reset q;\n  measure q;\n  echo(1);\n}\n",
                 [("qubit q", "0")], 1))
+    # a tracked variable re-bound by a whole-variable assignment still contributes one outcome per scope exit: that of the
+    # qubit(s) it denotes at that moment (assignment copies the opaque handle)
+    out.append(("local re-bound by assignment", "function main() -> void {\n  @tracked qubit q;\n  qubit p;\n  x(p);\n  measure p;\n  q = p;\n  echo(\"m\");\n}\n",
+                [("qubit q", "1")], 1))
+    out.append(("register re-bound by assignment", "function main() -> void {\n  @tracked qubit[2] r;\n  qubit[2] s;\n  x(s[1]);\n  measure s;\n  r = s;\n}\n",
+                [("qubit[] r", "01")], 0))
+    out.append(("re-bound inside a loop body", "function main() -> void {\n  qubit p;\n  x(p);\n  measure p;\n  for (int i = 0; i < 2; i = i + 1) {\n    @tracked qubit q;\n    if (i == 1) { q = p; }\n  }\n}\n",
+                [("qubit q", "?"), ("qubit q", "1")], 0))
     for k in (1, 2, 3):
         out.append(("loop body local x%d" % k,
                     "function main() -> void {\n  for (int i = 0; i < %d; i = i + 1) {\n    @tracked qubit q;\n    if (i %% 2 == 1) { x(q); }\n    measure q;\n  }\n  echo(\"done\");\n}\n" % k,
